@@ -168,6 +168,23 @@ def run(P, rep, tier):
             else:
                 rep.violation(r3, 'unrouted:%s:%s' % (f.short, site), f.loc(), '%s: %s' % (f.short, msg), path=[f.short])
     rep.floor(r3, 3)
+    # ---- R4: the reader asks for a section's newline with that section's effective encoding ----------------
+    r4 = rep.rule('C15-R4', 'the reader derives the newline of a content section (declared or detected) with the very encoding the '
+                  'section is decoded with, on every path', reference=6)
+    from sa.props import reader_rules as rr
+    R, res = rr.analyse(P, tier)
+    for X in rr.CONTENT_IDS:
+        ue = res[X]['util_encoding']
+        bad = [u for u in ue if u[1] != 'same']
+        if not ue:
+            raise AnalysisError('no newline helper call observed for %s (idiom not recognised)' % X)
+        if bad:
+            rep.violation(r4, 'newline-encoding:%s:%s' % (X, ','.join(sorted(u[0] for u in bad))), R.content_fn.loc(),
+                          'section %s: %s is called with an encoding (%s) that is not the section\'s effective encoding on some path: the '
+                          'newline searched for is not the newline of that codec (wide, BOM-emitting or non-ASCII-compatible codecs)'
+                          % (X, ', '.join(sorted(u[0] for u in bad)), ', '.join(sorted(u[1] for u in bad))), path=[R.content_fn.short])
+        else:
+            rep.ok(r4, X, sorted(u[0] for u in ue))
 
 
 _BOM_CODECS = set(platform_codecs()[1])
